@@ -30,12 +30,15 @@ func main() {
 		URL: "a.com/x", Headers: map[string]string{}}, lunar_context.NewMemoryState[[]byte]())
 	var wg sync.WaitGroup
 	panicked := make(chan string, 8)
-	stop := time.Now().Add(20 * time.Second)
+	start := time.Now()
+	stop := start.Add(20 * time.Second)
 	run := func(name string, f func() error) {
 		defer wg.Done()
 		defer func() {
 			if r := recover(); r != nil {
-				panicked <- fmt.Sprintf("%s: %v", name, r)
+				// the panic happens with cs.mutex held (no defer Unlock in Inc): everybody else is stuck now
+				fmt.Printf("PANIC in %s after %s: %v\n", name, time.Since(start).Round(time.Millisecond), r)
+				os.Exit(1)
 			}
 		}()
 		for n := 0; time.Now().Before(stop); n++ {
